@@ -7,7 +7,7 @@ CLAIM = ("-lh1-: (a) adaptive tree, on scaled instances of the real source (NUM_
          "(b) real constants: init_offset_table/read_offset equal LZHUF DecodePosition over d_code/d_len generated from the published length "
          "distribution, for every peeked byte, every low six bits, every alignment and truncation (offset); one lha_lh1_read command from an arbitrary 4 KiB "
          "window equals LZHUF's literal/copy semantics for copy lengths 3..12 (quick) / 3..28 (thorough) at any distance and write position - longer copies "
-         "(29..60) are NOT decided functionally (symbolic 4 KiB ring), only for memory safety (C09 lh1.read); the unscaled build uses 314/627/32768/4096/3 (params).")
+         "(up to 60) are decided on the window scaled to 64 bytes by the LHASA_VERIF hook (copy.r64p*: whole length range, sequential-definition oracle); the unscaled build uses 314/627/32768/4096/3 (params).")
 ASSUMPTIONS = ["tree maintenance is decided on scaled instances (NUM_CODES 3, 4, 6; small limit) of the same source text, not at 314 symbols; "
                "a defect that only shows through the numeric values 314/627/32768 is outside the claim (memory safety of those: C09)",
                "bit reader replaced by its specification (bits of a byte string, MSB first, failure when fewer bits remain): refinement is C01 bits.*",
@@ -130,6 +130,12 @@ HARNESSES = [
          unwindset={"lha_lh1_read.0": 29}, flags=["--arrays-uf-always"], timeout=1800, tier="thorough", mem_gb=6, units=["lib/lh1_decoder.c:lha_lh1_read,output_byte"],
          bounds="as copy.c12 with copy lengths 3..28",
          stubs=["read_code: arbitrary symbol 0..313 or failure (walk.*, inv.*)", "read_offset: arbitrary 12-bit distance or failure (offset)"]),
+] + [
+    dict(name="copy.r64p%d" % kp, src="C02/copy.c", entry="harness_seq", defines=["LHASA_VERIF_RING_BUFFER_SIZE=64", "KPOS=%d" % kp], rename_defs={"lib/lh1_decoder.c": ["read_code", "read_offset"]},
+         unwind=66, timeout=900, optional_witnesses=True, tier=("thorough" if kp == 30 else "both"), units=["lib/lh1_decoder.c:lha_lh1_read,output_byte (window scaled to 64 bytes by the LHASA_VERIF hook)"],
+         bounds="window scaled to 64 bytes, write position %d, arbitrary window contents: any copy of the WHOLE length range 3..60 at any 12-bit distance, sequential-definition oracle (seam crossing x self-overlap in every combination with this write position)" % kp,
+         stubs=["read_code: arbitrary copy symbol 256..313 (walk.*, inv.*)", "read_offset: arbitrary 12-bit distance (offset)"])
+    for kp in (0, 30, 63)] + [
     dict(name="copy.init", src="C02/copy.c", entry="harness_init", rename_defs={"lib/lh1_decoder.c": ["read_code", "read_offset"]},
          unwindset={"memset.0": 4098}, timeout=120, units=["lib/lh1_decoder.c:init_ring_buffer"], bounds="all 4096 window positions (symbolic index)"),
     # 6. H02.params
